@@ -135,7 +135,7 @@ def cmdS (st : DState) (t : List String) : Option DState :=
     let altr ← parseAlt alt
     let ctl ← parseCtl halt int nmi im iff1 iff2
     let dl := dbg.toList
-    if dl.length != 4 then none
+    if dl.length != 4 && dl.length != 5 then none
     let bit := fun (i : Nat) => dl.getD i '0' == '1'
     let topv ← parseHex top
     let seedv := UInt32.ofNat (← parseHex seed)
@@ -154,7 +154,8 @@ def cmdS (st : DState) (t : List String) : Option DState :=
     let cpu : Cpu :=
       { arch := { reg := reg, alt := altr, bus := { mem := mem, rom := romv }, halt := ctl.halt, int := ctl.int,
                   nmi := ctl.nmi, im := ctl.im, iff1 := ctl.iff1, iff2 := ctl.iff2 },
-        debug := { unknw := bit 0, opcode := bit 1, io := bit 2, instrIn := bit 3, str := "" },
+        debug := { unknw := bit 0, opcode := bit 1, io := bit 2, instrIn := bit 3,
+                   str := if bit 4 then "0xSTALE" else "" },   -- 5th flag: a stale diagnostic text is present
         slice := { duration := sdurv, max := smaxv, cur := scurv } }
     some { st with cpu := cpu, base := mem }
   | _ => none
